@@ -8,6 +8,8 @@ from rules.core.ir import Program
 from rules.core.norm import Norm, show
 from rules.core import q
 P = Program(engine.ensure_facts("/repo"))
+from rules.core import norm as _norm
+_norm.set_default(P, engine.keep_names())       # the same look-through of private helpers as at check time
 ITEMS = {
     # key: (fn suffix, crate)
     "desc/type_description": ("description::type_description", "scale_typegen_description"),
